@@ -701,28 +701,28 @@ def canon_reader(term: list) -> list:
             return ("unpack0", fmt, val(v[1][2]))
         return tuple(val(x) if isinstance(x, tuple) else x for x in v)
 
-    out = []
-    for tok in term:
-        if tok[0] == "READ":
-            reads[tok[2]] = len(reads)
-            out.append(("READ", val(tok[1])))
-        elif tok[0] in ("ALTCFG",):
-            out.append(("ALTCFG", tok[1], _canon_sub(tok[2], reads, val), _canon_sub(tok[3], reads, val)))
-        elif tok[0] == "ALT":
-            out.append(("ALT", val(tok[1]), _canon_sub(tok[2], reads, val), _canon_sub(tok[3], reads, val)))
-        else:
-            out.append(tuple(val(x) if isinstance(x, tuple) else x for x in tok))
+    # reads are numbered along a path: the two arms of an alternative continue from the same count (only one of them runs)
+    counter = [0]
+    out = _canon_sub(term, reads, val, counter)
     return _collection_idiom(out)
 
 
-def _canon_sub(term, reads, val):
+def _canon_sub(term, reads, val, counter=None):
+    counter = counter if counter is not None else [len(reads)]
     out = []
     for tok in term:
         if tok[0] == "READ":
-            reads[tok[2]] = len(reads)
+            reads[tok[2]] = counter[0]
+            counter[0] += 1
             out.append(("READ", val(tok[1])))
         elif tok[0] in ("ALTCFG", "ALT"):
-            out.append((tok[0], tok[1] if tok[0] == "ALTCFG" else val(tok[1]), _canon_sub(tok[2], reads, val), _canon_sub(tok[3], reads, val)))
+            head = tok[1] if tok[0] == "ALTCFG" else val(tok[1])
+            base = counter[0]
+            c1, c2 = [base], [base]
+            a1 = _canon_sub(tok[2], reads, val, c1)
+            a2 = _canon_sub(tok[3], reads, val, c2)
+            counter[0] = max(c1[0], c2[0])
+            out.append((tok[0], head, a1, a2))
         else:
             out.append(tuple(val(x) if isinstance(x, tuple) else x for x in tok))
     return out
